@@ -77,7 +77,7 @@ GroupMocks ==
 DupArgs(s) == \E i, j \in 1..Len(s) : i < j /\ s[i] = s[j]
 
 Deviations ==
-  {[clause |-> "C07.client_unreachable", locus |-> [shadowed_by |-> k]] : k \in {k \in AllClasses(Ops) : ModOfKey(k) \notin props}}
+  {[clause |-> "C07.client_unreachable", locus |-> [shadowed_by |-> k, class_emitted |-> k \in DOMAIN endpoints]] : k \in {k \in AllClasses(Ops) : ModOfKey(k) \notin props}}
   \cup (IF DupArgs(mockargs)
           THEN {[clause |-> "C01.mock_client_syntax", locus |-> [args |-> Len(mockargs), clients |-> Cardinality(ToSet(mockargs))]]}
           ELSE {[clause |-> "C13.mock_class_missing", locus |-> [tagpos |-> MinTagPos(Ops, k), variants |-> Variants(Ops, k)]] :
